@@ -22,6 +22,7 @@
   * ownership transfer and `fee_distributor_addr` changes of `update_config` are not modelled.
 -/
 import WW.Proofs.Lair
+import WW.Proofs.LairEpoch
 namespace WW.C08
 open WW WW.Lair
 
@@ -260,5 +261,16 @@ example : (([ Op.bond (.native 2) 5 [(2, 5)], .bond .token 5 [(0, 5)], .bond (.n
 example : (match step cfgEx
       (reach cfgEx (init (t0 + 5) E18 (fun _ _ => 1000000)) (histEx.take 2)) ⟨t0 + 1, 0, true⟩ (.withdraw 0) with
     | .panic => true | _ => false) = true := by decide
+
+
+/-- **the `first_bonded_epoch_id` the lair reports brackets the bond time**: `calculate_epoch(t) = fb`
+    (the `Bonded` query applies it to the address's earliest bond timestamp) means
+    `genesis + (fb − 1)·duration ≤ t < genesis + fb·duration` (and `t < genesis` for `fb = 0`). This is
+    exactly the hypothesis `bondTime < genesis + fb · duration` that `WW.C09.not_before_bonding_time`
+    takes from the lair: epochs `> fb`, the only ones a never-claimed address is paid for, start after
+    the bond. -/
+theorem first_bonded_epoch_brackets_bond_time {cfg : Lair.Cfg} {t fb : Nat} (h : Lair.calcEpoch cfg t = .ok fb) :
+    t < cfg.genesis + fb * cfg.epochDur ∧ (1 ≤ fb → cfg.genesis + (fb - 1) * cfg.epochDur ≤ t) :=
+  ⟨Lair.calcEpoch_lt h, Lair.calcEpoch_ge h⟩
 
 end WW.C08
